@@ -64,8 +64,29 @@ class ScriptedDefuzzifier(fl.Defuzzifier):
                 return float(vals[0])
             if self.next_as == "array1":
                 return np.array([vals[0]], dtype=np.float64)
+            if self.next_as == "pyint":  # `return 1` in a user-written defuzzifier
+                return int(vals[0])
+            if self.next_as == "pybool":
+                return bool(vals[0])
+        if self.next_as in NARROW:  # a defuzzifier that answers in a narrower type (the values are exact in it)
+            return np.array(vals[0] if len(vals) == 1 else vals, dtype=NARROW[self.next_as])
+        if len(vals) == 1:
             return np.array(vals[0], dtype=np.float64)
         return np.array(vals, dtype=np.float64)
+
+
+NARROW = {"f32": np.float32, "intarr": np.int64}
+
+
+def narrow_values(kind: str, vals: list[float], rng) -> list[float]:
+    """Scripted values that are exact in the type the stub will answer in."""
+    if kind == "f32":
+        return [float(np.float32(v)) for v in vals]
+    if kind == "pybool":
+        return [float(rng.random() < 0.5)]
+    if kind in ("pyint", "intarr"):
+        return [float(round(v)) if math.isfinite(v) else float(rng.randint(-3, 3)) for v in vals]
+    return vals
 
 
 def clipf(v: float, lo: float, hi: float) -> float:
@@ -224,8 +245,13 @@ class C12(Sim):
             r = rng.random()
             if r < 0.55:
                 k = rng.choice([1, 1, 1, 2, 3, 4, maxrows])
-                ops.append({"op": "call", "vals": [fenc(draw_value(rng, lo, hi)[0]) for _ in range(k)],
-                            "as": rng.choice(["array", "array", "npscalar", "pyfloat", "array1"])})
+                kind = rng.choice(["array", "array", "npscalar", "pyfloat", "array1"])
+                if rng.random() < 0.12:
+                    kind = rng.choice(["f32", "f32", "intarr", "pyint", "pybool"])
+                    if kind in ("pyint", "pybool"):
+                        k = 1
+                ops.append({"op": "call", "vals": [fenc(v) for v in narrow_values(kind, [draw_value(rng, lo, hi)[0] for _ in range(k)], rng)],
+                            "as": kind})
             elif r < 0.65 and faults:
                 ops.append({"op": "fail", "exc": rng.choice(EXC_NAMES)})
             elif r < 0.72:
@@ -335,6 +361,10 @@ class C12(Sim):
                 vs = [fdec(v) for v in op["vals"]]
                 stub.next_values = vs
                 stub.next_as = op.get("as", "array")
+                if stub.next_as in ("intarr", "pyint", "pybool") and math.isinf(m.default):
+                    # an integer-typed result cannot take an infinite default (NumPy refuses the cast even when nothing is
+                    # NaN); the defuzzifier contract is Scalar = float | float array, integers are a courtesy: not judged
+                    stub.next_as = "array"
                 if len(vs) == 1 and stub.next_as != "array":
                     st.hit("probes.stub_returned_" + stub.next_as)
                 calls0 = stub.calls
@@ -351,7 +381,20 @@ class C12(Sim):
                         st.hit("outcomes.defuzzifier_called_for_disabled_variable")
                 if last_was_nan_then_clear and vs[0] != vs[0] and m.lock_previous and m.enabled:
                     st.hit("probes.clear_between_nan_and_predecessor")
+                narrow = stub.buffer is None and stub.next_as == "f32" and m.enabled
+                if stub.buffer is None and stub.next_as in NARROW or stub.next_as in ("pyint", "pybool"):
+                    st.hit("probes.stub_answered_in_" + stub.next_as)
                 m.call(vs, st)
+                if narrow:
+                    # the defuzzifier answered in float32: NumPy keeps that type through fill, default and clip, so carried
+                    # values, the default and the bounds arrive rounded to it. Accept the result within float32 resolution
+                    # of the model's and carry on from what the variable holds; the previous value stays exact.
+                    held = [float(x) for x in np.atleast_1d(ov.value)]
+                    if len(held) == len(m.cur) and all(
+                            (a != a and b != b) or a == b or (math.isfinite(a) and math.isfinite(b) and abs(a - b) <= 1.2e-7 * max(abs(a), abs(b)))
+                            or (math.isinf(b) and abs(a) > 3.4e38)
+                            for a, b in zip(m.cur, held)):
+                        m.cur = held
                 first_call_seen = first_call_seen or m.enabled
                 sig.append(f"c{len(vs)}" + "".join(classify(v, m.lo, m.hi) for v in vs))
                 last_was_nan_then_clear = False
